@@ -4,9 +4,15 @@
    and when compensating  rate * refrac <= 1000;  draws of exponential_ are >= 0. *)
 From Coq Require Import List ZArith Bool Arith Lia Reals Lra Sorted.
 From Flocq Require Import Core.Raux.
-From Inferno Require Import Base.Num Base.NumR C19.Encoders C19.EncodersLists.
+From Inferno Require Import Base.Num Base.NumR C19.Encoders C19.EncodersLists C19.EncodersPoisson.
 Import ListNotations.
 Open Scope R_scope.
+
+Arguments c_steps {N} c.
+Arguments c_dt {N} c.
+Arguments c_freq {N} c.
+Arguments c_refrac {N} c.
+Arguments c_comp {N} c.
 
 (* the refractory period in ms that the functional encoder uses: the step time when None *)
 Definition refrac_ms (refrac : option R) (dt : R) : R := match refrac with None => dt | Some r => r end.
@@ -267,7 +273,7 @@ Proof.
   rewrite refrac_steps_eq in *. set (r := refrac_ms refrac dt / dt) in *.
   assert (Hr : 0 <= r) by (apply (refrac_steps_nonneg refrac dt); auto).
   destruct (scale_of RN inp dt r comp) as [v|] eqn:Es.
-  - assert (Hv : 0 <= v) by (eapply scale_of_nonneg; eauto).
+  - assert (Hv : 0 <= v) by (exact (scale_of_nonneg inp dt (refrac_ms refrac dt) comp v Hdt Hinp Hdom Es)).
     rewrite exp_indices_some in Hi1, Hi2.
     apply in_map_iff in Hi1 as [c1 [E1 Hc1]]. apply in_map_iff in Hi2 as [c2 [E2 Hc2]].
     destruct (csR_gapped r (map (fun e => e * v + r) (used steps r draws)) Hr) as [Hs Hge].
@@ -276,8 +282,8 @@ Proof.
     destruct (clamp_index_inv steps c1 t1 ltac:(lra) Ht1 E1) as [_ F1].
     destruct (clamp_index_inv steps c2 t2 ltac:(lra) Ht2 E2) as [_ F2].
     assert (Hc : c1 < c2).
-    { destruct (Rlt_dec c1 c2); auto. assert (c2 <= c1) by lra.
-      pose proof (Zfloor_le _ _ H3). lia. }
+    { destruct (Rlt_dec c1 c2); auto. assert (Hle : c2 <= c1) by lra.
+      pose proof (Zfloor_le _ _ Hle). lia. }
     pose proof (gapped_in r _ c1 c2 Hr Hs Hc1 Hc2 Hc) as Hg.
     pose proof (Zfloor_le _ _ Hg). pose proof (Zfloor_add_ge c1 r). lia.
   - pose proof (exp_indices_none steps r draws) as Hf. rewrite Forall_forall in Hf. apply Hf in Hi1. lia.
@@ -332,7 +338,7 @@ Proof.
     replace (INR steps / Rmax r 1 * Rmax r 1) with (INR steps) in Hf by (field; lra). auto. }
   assert (Hcount : INR (count_true tr) <= Rmax 0 (IZR (nbins RN steps r))).
   { destruct (Z_lt_le_dec (nbins RN steps r) 0) as [Hneg|Hpos].
-    - rewrite Z2Nat.inj_neg in Hc by lia. assert (count_true tr = 0)%nat as -> by lia.
+    - assert (count_true tr = 0)%nat as -> by lia.
       simpl. apply Rmax_l.
     - eapply Rle_trans; [|apply Rmax_r]. rewrite <- (Z2Nat.id (nbins RN steps r)) at 1 by auto.
       rewrite <- INR_IZR_INZ. apply le_INR. lia. }
@@ -341,4 +347,732 @@ Proof.
     eapply Rle_trans; [|exact Hnb]. apply Rmult_le_compat_r; lra.
   - rewrite Rmax_left in Hcount by lra. pose proof (pos_INR (count_true tr)).
     assert (INR (count_true tr) = 0) as -> by lra. rewrite Rmult_0_l. apply pos_INR.
+Qed.
+
+(* ------------------------------------------------------------------ offline exp-interval, whole tensor *)
+Lemma rows_out_of_range (out : list (list bool)) n j t :
+  Forall (fun row => length row = n) out -> (n <= j)%nat -> nth j (nth t out []) false = false.
+Proof.
+  intros H Hj. destruct (Nat.lt_ge_cases t (length out)) as [Ht|Ht].
+  - rewrite Forall_forall in H. rewrite nth_overflow; auto. rewrite (H (nth t out [])); auto. apply nth_In; auto.
+  - rewrite (nth_overflow out) by auto. destruct j; auto.
+Qed.
+
+Lemma exp_offline_elems steps dt refrac comp inps draws out :
+  exp_offline RN steps dt refrac comp inps draws = Ok out ->
+  length out = steps /\ Forall (fun row => length row = length inps) out /\
+  forall j, (j < length inps)%nat -> exists tr,
+    exp_offline_elem RN steps dt refrac comp (nth j inps 0) (column 0 j draws) = Some tr /\
+    forall t, nth j (nth t out []) false = nth t tr false.
+Proof.
+  unfold exp_offline. destruct (sequence _) as [trains|] eqn:E; [|discriminate].
+  intros H; inversion H; subst; clear H.
+  destruct (sequence_spec _ _ E) as [Hl Hn].
+  rewrite map_length, combine_length, seq_length, Nat.min_id in Hl, Hn.
+  split; [apply time_first_length|]. split; [rewrite <- Hl; apply time_first_rows|].
+  intros j Hj. specialize (Hn j None [] Hj).
+  rewrite nth_map_lt with (d := (0%nat, 0)) in Hn by (rewrite combine_length, seq_length, Nat.min_id; auto).
+  rewrite nth_combine_seq in Hn by auto. simpl in Hn.
+  exists (nth j trains []). split; auto. intros t.
+  destruct (Nat.lt_ge_cases t steps) as [Ht|Ht].
+  - apply time_first_nth; auto.
+  - rewrite time_first_nth_out by auto.
+    destruct (exp_offline_elem_spec _ _ _ _ _ _ _ Hn) as [Hlen _].
+    rewrite nth_overflow; auto. lia.
+Qed.
+
+Lemma valid_facts (c : config RN) : valid_step RN c && valid_refrac RN c = true ->
+  0 < c_dt c /\ 0 <= c_freq c /\ (0 < c_steps c)%Z /\ 0 <= enc_refrac RN c.
+Proof.
+  unfold valid_step, valid_refrac, enc_refrac; rn_simpl. intros H.
+  apply andb_prop in H as [H Hr]. apply andb_prop in H as [H Hs]. apply andb_prop in H as [Hf Hd].
+  destruct (Rleb'_spec 0 (c_freq c)); [|discriminate]. destruct (Rltb'_spec 0 (c_dt c)); [|discriminate].
+  apply Z.ltb_lt in Hs. repeat split; auto.
+  destruct (c_refrac c) as [x|]; [|lra]. destruct (Rleb'_spec 0 x); [auto|discriminate].
+Qed.
+
+Lemma valid_step_facts (c : config RN) : valid_step RN c = true ->
+  0 < c_dt c /\ 0 <= c_freq c /\ (0 < c_steps c)%Z.
+Proof.
+  unfold valid_step; rn_simpl. intros H.
+  apply andb_prop in H as [H Hs]. apply andb_prop in H as [Hf Hd].
+  destruct (Rleb'_spec 0 (c_freq c)); [|discriminate]. destruct (Rltb'_spec 0 (c_dt c)); [|discriminate].
+  apply Z.ltb_lt in Hs. auto.
+Qed.
+
+Lemma scaled_inputs_nth f xs j : (j < length xs)%nat -> nth j (scaled_inputs RN f xs) 0 = f * nth j xs 0.
+Proof. intros H. unfold scaled_inputs. rewrite nth_map_lt with (d := 0) by auto. reflexivity. Qed.
+Lemma scaled_inputs_length f xs : length (scaled_inputs RN f xs) = length xs.
+Proof. apply map_length. Qed.
+
+(* HomogeneousPoissonEncoder.forward(online=False): what an accepted call returns, element by element *)
+Lemma hpe_offline_elems c xs draws out :
+  hpe_offline RN c xs draws = Ok out ->
+  (0 < c_dt c /\ 0 <= c_freq c /\ (0 < c_steps c)%Z /\ 0 <= enc_refrac RN c) /\
+  length out = Z.to_nat (c_steps c) /\ Forall (fun row => length row = length xs) out /\
+  forall j, (j < length xs)%nat -> exists tr,
+    exp_offline_elem RN (Z.to_nat (c_steps c)) (c_dt c) (Some (enc_refrac RN c)) (c_comp c)
+      (c_freq c * nth j xs 0) (column 0 j draws) = Some tr /\
+    forall t, nth j (nth t out []) false = nth t tr false.
+Proof.
+  unfold hpe_offline. destruct (valid_step RN c && valid_refrac RN c) eqn:V; [|discriminate].
+  intros H. apply exp_offline_elems in H. rewrite scaled_inputs_length in H.
+  destruct H as [H1 [H2 H3]]. split; [apply valid_facts; auto|]. split; auto. split; auto.
+  intros j Hj. destruct (H3 j Hj) as [tr [Ht Hn]]. rewrite scaled_inputs_nth in Ht by auto. eauto.
+Qed.
+
+(* --- C19: exactly `steps` rows, time first, each of the input's size *)
+Theorem hpe_offline_shape c xs draws out :
+  hpe_offline RN c xs draws = Ok out ->
+  length out = Z.to_nat (c_steps c) /\ (0 < c_steps c)%Z /\ Forall (fun row => length row = length xs) out.
+Proof. intros H. apply hpe_offline_elems in H. tauto. Qed.
+
+(* --- C19: never a spike for an input of zero intensity *)
+Theorem hpe_offline_zero_silent c xs draws out j :
+  hpe_offline RN c xs draws = Ok out -> nth j xs 0 = 0 ->
+  forall t, nth j (nth t out []) false = false.
+Proof.
+  intros H Hz t. apply hpe_offline_elems in H. destruct H as [_ [_ [Hrows Hel]]].
+  destruct (Nat.lt_ge_cases j (length xs)) as [Hj|Hj]; [|eapply rows_out_of_range; eauto].
+  destruct (Hel j Hj) as [tr [Ht Hn]]. rewrite Hn. rewrite Hz, Rmult_0_r in Ht.
+  eapply exp_offline_elem_zero_silent; eauto.
+Qed.
+
+Definition hpe_domain (c : config RN) (xs : list R) : Prop :=
+  Forall (fun x => 0 <= x) xs /\
+  (c_comp c = true -> Forall (fun x => c_freq c * x * enc_refrac RN c <= 1000) xs).
+
+Lemma hpe_domain_elem c xs j : hpe_domain c xs -> 0 <= c_freq c -> (j < length xs)%nat ->
+  0 <= c_freq c * nth j xs 0 /\ (c_comp c = true -> c_freq c * nth j xs 0 * enc_refrac RN c <= 1000).
+Proof.
+  intros [Hx Hd] Hf Hj. split.
+  - apply Rmult_le_pos; auto. rewrite Forall_forall in Hx. apply Hx. apply nth_In; auto.
+  - intros Hc. specialize (Hd Hc). rewrite Forall_forall in Hd. apply Hd. apply nth_In; auto.
+Qed.
+
+(* --- C19: the refractory Poisson encoder never places two spikes of one element closer than
+       floor(refrac / dt) steps (= refrac/dt when refrac is a multiple of dt), for every sample tensor *)
+Theorem hpe_offline_min_gap c xs draws out j t1 t2 :
+  hpe_offline RN c xs draws = Ok out -> hpe_domain c xs ->
+  Forall (Forall (fun e => 0 <= e)) draws ->
+  (t1 < t2)%nat -> nth j (nth t1 out []) false = true -> nth j (nth t2 out []) false = true ->
+  (Zfloor (enc_refrac RN c / c_dt c) <= Z.of_nat t2 - Z.of_nat t1)%Z.
+Proof.
+  intros H Hdom Hd Hlt H1 H2. apply hpe_offline_elems in H.
+  destruct H as [[Hdt [Hf [Hs Hr]]] [_ [Hrows Hel]]].
+  destruct (Nat.lt_ge_cases j (length xs)) as [Hj|Hj];
+    [|rewrite (rows_out_of_range out (length xs) j t1 Hrows Hj) in H1; discriminate].
+  destruct (Hel j Hj) as [tr [Ht Hn]]. rewrite Hn in H1, H2.
+  destruct (hpe_domain_elem c xs j Hdom Hf Hj) as [Hi Hc].
+  exact (exp_offline_elem_min_gap _ _ (Some (enc_refrac RN c)) _ _ _ _ _ _ Hdt Hr Hi Hc
+           (column_Forall _ 0 j draws (Rle_refl 0) Hd) Ht Hlt H1 H2).
+Qed.
+
+Corollary hpe_offline_min_gap_multiple c xs draws out j t1 t2 (k : Z) :
+  hpe_offline RN c xs draws = Ok out -> hpe_domain c xs ->
+  Forall (Forall (fun e => 0 <= e)) draws ->
+  enc_refrac RN c = IZR k * c_dt c ->
+  (t1 < t2)%nat -> nth j (nth t1 out []) false = true -> nth j (nth t2 out []) false = true ->
+  (k <= Z.of_nat t2 - Z.of_nat t1)%Z.
+Proof.
+  intros H Hdom Hd Hk Hlt H1 H2.
+  pose proof (hpe_offline_min_gap _ _ _ _ _ _ _ H Hdom Hd Hlt H1 H2) as G.
+  apply hpe_offline_elems in H. destruct H as [[Hdt _] _].
+  replace (enc_refrac RN c / c_dt c) with (IZR k) in G by (rewrite Hk; field; lra).
+  rewrite Zfloor_IZR in G. auto.
+Qed.
+
+(* --- C19: no element fires more than once per refractory period *)
+Theorem hpe_offline_once_per_refrac c xs draws out j a :
+  hpe_offline RN c xs draws = Ok out -> hpe_domain c xs ->
+  Forall (Forall (fun e => 0 <= e)) draws ->
+  (count_true (firstn (Z.to_nat (Zfloor (enc_refrac RN c / c_dt c))) (skipn a (column false j out))) <= 1)%nat.
+Proof.
+  intros H Hdom Hd. apply gap_window. intros t1 t2 Hlt H1 H2. rewrite column_nth in H1, H2.
+  pose proof (hpe_offline_min_gap _ _ _ _ _ _ _ H Hdom Hd Hlt H1 H2). lia.
+Qed.
+
+(* --- rate limit: spikes of an element * max(refrac/dt, 1) <= steps *)
+Theorem hpe_offline_rate_limit c xs draws out j :
+  hpe_offline RN c xs draws = Ok out ->
+  INR (count_true (column false j out)) * Rmax (enc_refrac RN c / c_dt c) 1 <= IZR (c_steps c).
+Proof.
+  intros H. apply hpe_offline_elems in H. destruct H as [[Hdt [Hf [Hs Hr]]] [Hlen [Hrows Hel]]].
+  assert (Hsteps : INR (Z.to_nat (c_steps c)) = IZR (c_steps c)) by (rewrite INR_IZR_INZ, Z2Nat.id; auto; lia).
+  destruct (Nat.lt_ge_cases j (length xs)) as [Hj|Hj].
+  - destruct (Hel j Hj) as [tr [Ht Hn]].
+    assert (Hcol : column false j out = tr).
+    { destruct (exp_offline_elem_spec _ _ _ _ _ _ _ Ht) as [Hl _].
+      apply nth_ext with (d := false) (d' := false).
+      - unfold column. rewrite map_length. lia.
+      - intros t _. rewrite column_nth. auto. }
+    rewrite Hcol, <- Hsteps.
+    exact (exp_offline_elem_rate_limit _ _ (Some (enc_refrac RN c)) _ _ _ _ Hdt Hr Ht).
+  - rewrite count_true_all_false.
+    + simpl. rewrite Rmult_0_l. apply IZR_le. lia.
+    + intros t. rewrite column_nth. eapply rows_out_of_range; eauto.
+Qed.
+
+(* --- inside the domain the call does not raise *)
+Theorem hpe_offline_defined c xs draws :
+  valid_step RN c && valid_refrac RN c = true -> hpe_domain c xs ->
+  Forall (Forall (fun e => 0 <= e)) draws ->
+  exists out, hpe_offline RN c xs draws = Ok out.
+Proof.
+  intros V Hdom Hd. unfold hpe_offline. rewrite V. unfold exp_offline.
+  destruct (valid_facts c V) as [Hdt [Hf [Hs Hr]]].
+  destruct (sequence_defined
+    (map (fun ji => exp_offline_elem RN (Z.to_nat (c_steps c)) (c_dt c) (Some (enc_refrac RN c)) (c_comp c)
+                      (snd ji) (column (zero RN) (fst ji) draws))
+         (combine (seq 0 (length (scaled_inputs RN (c_freq c) xs))) (scaled_inputs RN (c_freq c) xs))))
+    as [trains ->]; eauto.
+  intros o Ho. apply in_map_iff in Ho as [[j inp] [<- Hin]]. simpl.
+  assert (Hinp : In inp (scaled_inputs RN (c_freq c) xs)) by (eapply in_combine_r; eauto).
+  apply in_map_iff in Hinp as [x [<- Hx]]. destruct Hdom as [Hx0 Hxd].
+  rewrite Forall_forall in Hx0.
+  apply exp_offline_elem_defined; auto.
+  - apply Rmult_le_pos; auto.
+  - intros Hc. specialize (Hxd Hc). rewrite Forall_forall in Hxd. apply Hxd; auto.
+  - apply column_Forall; auto. apply Rle_refl.
+Qed.
+
+(* ------------------------------------------------------------------ online exp-interval: one element *)
+Definition ext_ge (i : ext RN) (lb : R) : Prop := match i with None => True | Some x => lb <= x end.
+Definition nonneg (e : R) : Prop := 0 <= e.
+Notation exp_trace r := (elem_trace (ext_dec RN) (exp_fire RN) (interval RN r) nonneg).
+
+Lemma exp_fire_inv (p i : ext RN) : exp_fire RN p (ext_dec RN i) = true -> exists x, i = Some x /\ x < 2.
+Proof.
+  unfold exp_fire, ext_lt1, ext_dec. destruct i as [x|]; simpl; [|discriminate]. rn_simpl.
+  destruct (Rltb'_spec (x - 1) 1); [|discriminate]. intros _. exists x. split; auto. lra.
+Qed.
+
+(* a spike at step t needs the interval to have run down: it was below t + 2 at the start *)
+Lemma exp_trace_first r s i bs : exp_trace r s i bs ->
+  forall lb, ext_ge i lb -> forall t, nth t bs false = true -> lb < INR t + 2.
+Proof.
+  induction 1 as [i|i bs Hf Htr IH|i e bs Hf He Htr IH]; intros lb Hlb t Ht.
+  - destruct t; discriminate.
+  - destruct t as [|t]; [discriminate|]. simpl in Ht.
+    assert (Hlb' : ext_ge (ext_dec RN i) (lb - 1)).
+    { destruct i as [x|]; simpl in *; auto. rn_simpl. lra. }
+    specialize (IH _ Hlb' _ Ht). rewrite S_INR. lra.
+  - apply exp_fire_inv in Hf as [x [-> Hx]]. simpl in Hlb. pose proof (pos_INR t). lra.
+Qed.
+
+(* two spikes of one element: strictly more than refrac/dt - 1 steps apart *)
+Lemma exp_trace_gap r s i bs : (forall v, s = Some v -> 0 <= v) -> exp_trace r s i bs ->
+  forall t1 t2, (t1 < t2)%nat -> nth t1 bs false = true -> nth t2 bs false = true ->
+  r < INR t2 - INR t1 + 1.
+Proof.
+  intros Hs. induction 1 as [i|i bs Hf Htr IH|i e bs Hf He Htr IH]; intros t1 t2 Hlt H1 H2.
+  - destruct t1; discriminate.
+  - destruct t1 as [|a]; [discriminate|]. destruct t2 as [|b]; [lia|]. simpl in H1, H2.
+    specialize (IH a b ltac:(lia) H1 H2). rewrite !S_INR. lra.
+  - destruct t2 as [|b]; [lia|]. simpl in H2. destruct t1 as [|a].
+    + assert (Hlb : ext_ge (interval RN r s e) r).
+      { destruct s as [v|]; simpl; auto. rn_simpl. specialize (Hs v eq_refl).
+        unfold nonneg in He. pose proof (Rmult_le_pos _ _ He Hs). lra. }
+      pose proof (exp_trace_first _ _ _ _ Htr _ Hlb _ H2). rewrite S_INR. simpl. lra.
+    + simpl in H1. specialize (IH a b ltac:(lia) H1 H2). rewrite !S_INR. lra.
+Qed.
+
+Lemma exp_trace_none_gen r s i bs : exp_trace r s i bs -> i = None -> forall t, nth t bs false = false.
+Proof.
+  induction 1 as [i|i bs Hf Htr IH|i e bs Hf He Htr IH]; intros Ei t; subst.
+  - destruct t; auto.
+  - destruct t; simpl; auto.
+  - simpl in Hf. discriminate.
+Qed.
+Lemma exp_trace_none r s bs : exp_trace r s None bs -> forall t, nth t bs false = false.
+Proof. intros H. eapply exp_trace_none_gen; eauto. Qed.
+
+Lemma gap_to_floor r (t1 t2 : nat) : r < INR t2 - INR t1 + 1 -> (Zfloor r <= Z.of_nat t2 - Z.of_nat t1)%Z.
+Proof.
+  intros H. pose proof (Zfloor_lb r) as Hf. rewrite !INR_IZR_INZ in H.
+  assert (Hz : IZR (Zfloor r) < IZR (Z.of_nat t2 - Z.of_nat t1 + 1)) by (rewrite plus_IZR, minus_IZR; simpl; lra).
+  apply lt_IZR in Hz. lia.
+Qed.
+
+(* ------------------------------------------------------------------ online exp-interval: whole tensor *)
+Lemma combine_nth_error {A B} (l1 : list A) (l2 : list B) j a b :
+  nth_error l1 j = Some a -> nth_error l2 j = Some b -> nth_error (combine l1 l2) j = Some (a, b).
+Proof.
+  revert l2 j; induction l1 as [|x t IH]; intros [|y t2] [|j] H1 H2; simpl in *; try discriminate.
+  - inversion H1; inversion H2; auto.
+  - auto.
+Qed.
+
+Lemma exp_online_columns guard steps dt refrac comp inps draws0 draws outs raised :
+  exp_online_gen RN guard steps dt refrac comp inps draws0 draws = (outs, raised) ->
+  length draws0 = length inps ->
+  (length outs <= steps)%nat /\ (raised = false -> length outs = steps) /\
+  Forall (fun row => length row = length inps) outs /\
+  (Forall nonneg draws0 -> Forall (Forall nonneg) draws ->
+   forall j, (j < length inps)%nat -> exists e0, nonneg e0 /\
+     exp_trace (refrac_steps RN refrac dt)
+       (scale_of RN (nth j inps 0) dt (refrac_steps RN refrac dt) comp)
+       (interval RN (refrac_steps RN refrac dt) (scale_of RN (nth j inps 0) dt (refrac_steps RN refrac dt) comp) e0)
+       (column false j outs)).
+Proof.
+  unfold exp_online_gen. set (r := refrac_steps RN refrac dt).
+  set (scales := map (fun inp => scale_of RN inp dt r comp) inps).
+  set (ivs0 := map _ (combine scales draws0)). intros H Hl0.
+  assert (Hls : length scales = length inps) by (unfold scales; apply map_length).
+  assert (Hli : length scales = length ivs0).
+  { unfold ivs0. rewrite map_length, combine_length. lia. }
+  destruct (online_loop_shape _ _ _ _ _ _ _ _ _ _ _ Hli H) as [S1 [S2 S3]].
+  rewrite Hls in S3. repeat split; auto.
+  intros Hd0 Hd j Hj.
+  assert (Hs : nth_error scales j = Some (scale_of RN (nth j inps 0) dt r comp)).
+  { unfold scales. rewrite nth_error_map, (nth_error_nth' inps 0) by auto. auto. }
+  assert (He : nth_error draws0 j = Some (nth j draws0 0)) by (apply nth_error_nth'; lia).
+  assert (Hi : nth_error ivs0 j = Some (interval RN r (scale_of RN (nth j inps 0) dt r comp) (nth j draws0 0))).
+  { unfold ivs0. rewrite nth_error_map, (combine_nth_error _ _ _ _ _ Hs He). auto. }
+  exists (nth j draws0 0). split.
+  - rewrite Forall_forall in Hd0. apply Hd0. apply nth_In. lia.
+  - eapply (online_loop_column (ext_dec RN) (exp_fire RN) (interval RN r) (zero RN) nonneg); eauto.
+    unfold nonneg; simpl; lra.
+Qed.
+
+(* --- C19 online: yields exactly `steps` slices of the input's size (whenever it does not raise) *)
+Theorem exp_online_yields_steps guard steps dt refrac comp inps draws0 draws outs :
+  exp_online_gen RN guard steps dt refrac comp inps draws0 draws = (outs, false) ->
+  length draws0 = length inps ->
+  length outs = steps /\ Forall (fun row => length row = length inps) outs.
+Proof. intros H Hl. destruct (exp_online_columns _ _ _ _ _ _ _ _ _ _ H Hl) as [_ [H2 [H3 _]]]. auto. Qed.
+
+Theorem exp_online_elemwise_total steps dt refrac comp inps draws0 draws :
+  snd (exp_online_elemwise RN steps dt refrac comp inps draws0 draws) = false.
+Proof. apply online_loop_total. Qed.
+
+(* the function as coded and its element-wise reading agree on everything the coded one yields *)
+Theorem exp_online_coded_agrees shape steps dt refrac comp inps draws0 draws outs raised :
+  exp_online_coded RN shape steps dt refrac comp inps draws0 draws = (outs, raised) ->
+  exists rest, fst (exp_online_elemwise RN steps dt refrac comp inps draws0 draws) = outs ++ rest /\
+               (raised = false -> rest = []).
+Proof. apply online_loop_guard_prefix. Qed.
+
+(* the defect (DESIGN section 8 row 18): with more than one element the coded online encoder completes
+   only if at every step EVERY element fires; otherwise it raises and yields fewer than `steps` slices *)
+Lemma online_loop_guard_rows {St E P} dec fire renew edef guard (ps : list P) (ivs : list St) (draws : list (list E))
+      steps outs raised :
+  online_loop dec fire renew edef guard ps ivs draws steps = (outs, raised) ->
+  Forall (fun row => guard (count_true row) = true) outs.
+Proof.
+  revert ivs draws outs raised; induction steps as [|m IH]; intros ivs draws outs raised H; simpl in H.
+  - inversion H; subst; constructor.
+  - destruct (guard _) eqn:G; [|inversion H; subst; constructor].
+    destruct (online_loop _ _ _ _ _ _ _ _ m) as [rest r] eqn:Eq. inversion H; subst.
+    constructor; auto. eapply IH; eauto.
+Qed.
+
+Theorem exp_online_coded_completes_only_if_all_fire shape steps dt refrac comp inps draws0 draws outs raised :
+  exp_online_coded RN shape steps dt refrac comp inps draws0 draws = (outs, raised) ->
+  length inps <> 1%nat ->
+  Forall (fun row => count_true row = length inps) outs.
+Proof.
+  intros H Hn. apply online_loop_guard_rows in H. eapply Forall_impl; [|exact H]. simpl.
+  intros row G. unfold assign_ok in G. apply orb_prop in G as [G|G].
+  - apply Nat.eqb_eq in G. contradiction.
+  - apply andb_prop in G as [_ G]. apply Nat.eqb_eq in G. auto.
+Qed.
+
+Theorem exp_online_shape_refuted :
+  exists shape steps dt refrac comp inps draws0 draws,
+    0 < dt /\ Forall (fun x => 0 <= x) inps /\ Forall nonneg draws0 /\ length draws0 = length inps /\
+    snd (exp_online_coded RN shape steps dt refrac comp inps draws0 draws) = true /\
+    (length (fst (exp_online_coded RN shape steps dt refrac comp inps draws0 draws)) < steps)%nat.
+Proof.
+  exists [2%nat], 3%nat, 1, None, false, [0; 0], [1; 1], [].
+  assert (E : exp_online_coded RN [2%nat] 3 1 None false [0; 0] [1; 1] [] = ([], true)).
+  { unfold exp_online_coded, exp_online_gen. cbn [map]. rewrite !scale_of_zero. reflexivity. }
+  rewrite E. unfold nonneg. repeat split; simpl; auto; try lra; try lia; repeat constructor; lra.
+Qed.
+
+(* --- C19 online: silence at zero intensity *)
+Theorem exp_online_zero_silent guard steps dt refrac comp inps draws0 draws outs raised j :
+  exp_online_gen RN guard steps dt refrac comp inps draws0 draws = (outs, raised) ->
+  length draws0 = length inps -> Forall nonneg draws0 -> Forall (Forall nonneg) draws ->
+  nth j inps 0 = 0 -> forall t, nth j (nth t outs []) false = false.
+Proof.
+  intros H Hl Hd0 Hd Hz t. destruct (exp_online_columns _ _ _ _ _ _ _ _ _ _ H Hl) as [_ [_ [Hrows Hcol]]].
+  destruct (Nat.lt_ge_cases j (length inps)) as [Hj|Hj]; [|eapply rows_out_of_range; eauto].
+  destruct (Hcol Hd0 Hd j Hj) as [e0 [_ Htr]]. rewrite Hz, scale_of_zero in Htr. simpl in Htr.
+  rewrite <- column_nth. eapply exp_trace_none; eauto.
+Qed.
+
+(* --- C19 online: minimum gap floor(refrac/dt) between two spikes of an element *)
+Theorem exp_online_min_gap guard steps dt refrac comp inps draws0 draws outs raised j t1 t2 :
+  exp_online_gen RN guard steps dt refrac comp inps draws0 draws = (outs, raised) ->
+  length draws0 = length inps -> Forall nonneg draws0 -> Forall (Forall nonneg) draws ->
+  0 < dt -> 0 <= refrac_ms refrac dt -> Forall (fun x => 0 <= x) inps ->
+  (comp = true -> Forall (fun x => x * refrac_ms refrac dt <= 1000) inps) ->
+  (t1 < t2)%nat -> nth j (nth t1 outs []) false = true -> nth j (nth t2 outs []) false = true ->
+  (Zfloor (refrac_ms refrac dt / dt) <= Z.of_nat t2 - Z.of_nat t1)%Z.
+Proof.
+  intros H Hl Hd0 Hd Hdt Hr Hx Hdom Hlt H1 H2.
+  destruct (exp_online_columns _ _ _ _ _ _ _ _ _ _ H Hl) as [_ [_ [Hrows Hcol]]].
+  destruct (Nat.lt_ge_cases j (length inps)) as [Hj|Hj];
+    [|rewrite (rows_out_of_range outs (length inps) j t1 Hrows Hj) in H1; discriminate].
+  destruct (Hcol Hd0 Hd j Hj) as [e0 [_ Htr]].
+  rewrite <- column_nth in H1, H2. rewrite refrac_steps_eq in Htr.
+  apply gap_to_floor. eapply exp_trace_gap; [|exact Htr|auto|auto|auto].
+  intros v Hv. eapply scale_of_nonneg; [exact Hdt| | |exact Hv].
+  - rewrite Forall_forall in Hx. apply Hx. apply nth_In; auto.
+  - intros Hc. specialize (Hdom Hc). rewrite Forall_forall in Hdom. apply Hdom. apply nth_In; auto.
+Qed.
+
+Theorem exp_online_once_per_refrac guard steps dt refrac comp inps draws0 draws outs raised j a :
+  exp_online_gen RN guard steps dt refrac comp inps draws0 draws = (outs, raised) ->
+  length draws0 = length inps -> Forall nonneg draws0 -> Forall (Forall nonneg) draws ->
+  0 < dt -> 0 <= refrac_ms refrac dt -> Forall (fun x => 0 <= x) inps ->
+  (comp = true -> Forall (fun x => x * refrac_ms refrac dt <= 1000) inps) ->
+  (count_true (firstn (Z.to_nat (Zfloor (refrac_ms refrac dt / dt))) (skipn a (column false j outs))) <= 1)%nat.
+Proof.
+  intros H Hl Hd0 Hd Hdt Hr Hx Hdom. apply gap_window. intros t1 t2 Hlt H1 H2. rewrite column_nth in H1, H2.
+  pose proof (exp_online_min_gap _ _ _ _ _ _ _ _ _ _ _ _ _ H Hl Hd0 Hd Hdt Hr Hx Hdom Hlt H1 H2). lia.
+Qed.
+
+(* ------------------------------------------------------------------ HomogeneousPoissonEncoder.forward(online=True) *)
+Lemma hpe_online_inv coded shape c xs draws0 draws outs raised :
+  hpe_online RN coded shape c xs draws0 draws = Ok (outs, raised) ->
+  (0 < c_dt c /\ 0 <= c_freq c /\ (0 < c_steps c)%Z /\ 0 <= enc_refrac RN c) /\
+  exp_online_gen RN (if coded then assign_ok shape (length xs) else fun _ => true)
+    (Z.to_nat (c_steps c)) (c_dt c) (Some (enc_refrac RN c)) (c_comp c) (scaled_inputs RN (c_freq c) xs)
+    draws0 draws = (outs, raised).
+Proof.
+  unfold hpe_online. destruct (valid_step RN c && valid_refrac RN c) eqn:V; [|discriminate].
+  intros H; inversion H. split; auto. apply valid_facts; auto.
+Qed.
+
+Theorem hpe_online_yields_steps coded shape c xs draws0 draws outs :
+  hpe_online RN coded shape c xs draws0 draws = Ok (outs, false) -> length draws0 = length xs ->
+  length outs = Z.to_nat (c_steps c) /\ (0 < c_steps c)%Z /\ Forall (fun row => length row = length xs) outs.
+Proof.
+  intros H Hl. apply hpe_online_inv in H as [[_ [_ [Hs _]]] H].
+  apply exp_online_yields_steps in H; [|rewrite scaled_inputs_length; auto].
+  rewrite scaled_inputs_length in H. tauto.
+Qed.
+
+Theorem hpe_online_zero_silent coded shape c xs draws0 draws outs raised j :
+  hpe_online RN coded shape c xs draws0 draws = Ok (outs, raised) -> length draws0 = length xs ->
+  Forall nonneg draws0 -> Forall (Forall nonneg) draws -> nth j xs 0 = 0 ->
+  forall t, nth j (nth t outs []) false = false.
+Proof.
+  intros H Hl Hd0 Hd Hz t. apply hpe_online_inv in H as [_ H].
+  destruct (Nat.lt_ge_cases j (length xs)) as [Hj|Hj].
+  - eapply exp_online_zero_silent; eauto; [rewrite scaled_inputs_length; auto|].
+    rewrite scaled_inputs_nth by auto. rewrite Hz. apply Rmult_0_r.
+  - destruct (exp_online_columns _ _ _ _ _ _ _ _ _ _ H ltac:(rewrite scaled_inputs_length; auto)) as [_ [_ [Hrows _]]].
+    rewrite scaled_inputs_length in Hrows. eapply rows_out_of_range; eauto.
+Qed.
+
+Theorem hpe_online_min_gap coded shape c xs draws0 draws outs raised j t1 t2 :
+  hpe_online RN coded shape c xs draws0 draws = Ok (outs, raised) -> length draws0 = length xs ->
+  Forall nonneg draws0 -> Forall (Forall nonneg) draws -> hpe_domain c xs ->
+  (t1 < t2)%nat -> nth j (nth t1 outs []) false = true -> nth j (nth t2 outs []) false = true ->
+  (Zfloor (enc_refrac RN c / c_dt c) <= Z.of_nat t2 - Z.of_nat t1)%Z.
+Proof.
+  intros H Hl Hd0 Hd [Hx Hdom] Hlt H1 H2. apply hpe_online_inv in H as [[Hdt [Hf [Hs Hr]]] H].
+  eapply (exp_online_min_gap _ _ _ (Some (enc_refrac RN c))); eauto.
+  - rewrite scaled_inputs_length; auto.
+  - unfold scaled_inputs. apply Forall_forall. intros y Hy. apply in_map_iff in Hy as [x [<- Hxin]].
+    rewrite Forall_forall in Hx. apply Rmult_le_pos; auto.
+  - intros Hc. specialize (Hdom Hc). unfold scaled_inputs. apply Forall_forall. intros y Hy.
+    apply in_map_iff in Hy as [x [<- Hxin]]. rewrite Forall_forall in Hdom. simpl. apply Hdom; auto.
+Qed.
+
+(* ------------------------------------------------------------------ PoissonIntervalEncoder *)
+Lemma pi_mask_zero f : pi_mask RN (f * 0) = false.
+Proof. unfold pi_mask; rn_simpl. rewrite Rmult_0_r. destruct (Rltb'_spec 0 0); auto; lra. Qed.
+Lemma pi_mask_pos x : 0 < x -> pi_mask RN x = true.
+Proof. intros H. unfold pi_mask; rn_simpl. destruct (Rltb'_spec 0 x); auto; lra. Qed.
+
+Lemma pie_offline_elems c xs draws out :
+  pie_offline RN c xs draws = Ok out ->
+  (0 < c_steps c)%Z /\ length out = Z.to_nat (c_steps c) /\ Forall (fun row => length row = length xs) out /\
+  forall j, (j < length xs)%nat -> exists tr,
+    pi_offline_elem (Z.to_nat (c_steps c)) (pi_mask RN (c_freq c * nth j xs 0)) (column 0%Z j draws) = Some tr /\
+    forall t, nth j (nth t out []) false = nth t tr false.
+Proof.
+  unfold pie_offline. destruct (valid_step RN c) eqn:V; [|discriminate].
+  destruct (valid_step_facts c V) as [_ [_ Hs]]. unfold pi_offline.
+  destruct (sequence _) as [trains|] eqn:E; [|discriminate].
+  intros H; inversion H; subst; clear H.
+  destruct (sequence_spec _ _ E) as [Hl Hn].
+  rewrite map_length, combine_length, seq_length, Nat.min_id in Hl, Hn. rewrite scaled_inputs_length in Hl.
+  split; auto. split; [apply time_first_length|]. split; [rewrite <- Hl; apply time_first_rows|].
+  intros j Hj. specialize (Hn j None [] ltac:(rewrite scaled_inputs_length; auto)).
+  rewrite nth_map_lt with (d := (0%nat, 0)) in Hn
+    by (rewrite combine_length, seq_length, Nat.min_id, scaled_inputs_length; auto).
+  rewrite nth_combine_seq in Hn by (rewrite scaled_inputs_length; auto). simpl in Hn.
+  rewrite scaled_inputs_nth in Hn by auto.
+  exists (nth j trains []). split; auto. intros t.
+  destruct (Nat.lt_ge_cases t (Z.to_nat (c_steps c))) as [Ht|Ht].
+  - apply time_first_nth; auto.
+  - rewrite time_first_nth_out by auto.
+    destruct (pi_offline_elem_spec _ _ _ _ Hn) as [Hlen _]. rewrite nth_overflow; auto. lia.
+Qed.
+
+Theorem pie_offline_shape c xs draws out :
+  pie_offline RN c xs draws = Ok out ->
+  length out = Z.to_nat (c_steps c) /\ (0 < c_steps c)%Z /\ Forall (fun row => length row = length xs) out.
+Proof. intros H. apply pie_offline_elems in H. tauto. Qed.
+
+(* zero intensity: masked out; the sampler returns 0 at rate 0 (hypothesis) *)
+Theorem pie_offline_zero_silent c xs draws out j :
+  pie_offline RN c xs draws = Ok out -> nth j xs 0 = 0 ->
+  Forall (fun d => d = 0%Z) (column 0%Z j draws) ->
+  forall t, nth j (nth t out []) false = false.
+Proof.
+  intros H Hz Hd t. apply pie_offline_elems in H. destruct H as [_ [_ [Hrows Hel]]].
+  destruct (Nat.lt_ge_cases j (length xs)) as [Hj|Hj]; [|eapply rows_out_of_range; eauto].
+  destruct (Hel j Hj) as [tr [Ht Hn]]. rewrite Hn. rewrite Hz, pi_mask_zero in Ht.
+  eapply pi_offline_elem_zero_silent; eauto.
+Qed.
+
+(* the artefact of the code as written: every active element fires at the last step of every call *)
+Theorem pie_offline_last_step_always_fires c xs draws out j :
+  pie_offline RN c xs draws = Ok out -> (j < length xs)%nat -> 0 < c_freq c * nth j xs 0 ->
+  Forall (Forall (fun d => (0 <= d)%Z)) draws -> (Z.to_nat (c_steps c) + 2 <= length draws)%nat ->
+  nth j (nth (Z.to_nat (c_steps c) - 1) out []) false = true.
+Proof.
+  intros H Hj Hpos Hd Hlen. apply pie_offline_elems in H. destruct H as [Hs [_ [_ Hel]]].
+  destruct (Hel j Hj) as [tr [Ht Hn]]. rewrite Hn. rewrite pi_mask_pos in Ht by auto.
+  apply (pi_offline_elem_last_step_always_fires (Z.to_nat (c_steps c)) (column 0%Z j draws) tr); auto.
+  - lia.
+  - apply column_Forall; auto. lia.
+  - unfold column. rewrite map_length. auto.
+Qed.
+
+Theorem pie_online_shape c xs draws0 draws outs raised :
+  pie_online RN c xs draws0 draws = Ok (outs, raised) -> length draws0 = length xs ->
+  raised = false /\ length outs = Z.to_nat (c_steps c) /\ (0 < c_steps c)%Z /\
+  Forall (fun row => length row = length xs) outs.
+Proof.
+  unfold pie_online. destruct (valid_step RN c) eqn:V; [|discriminate].
+  destruct (valid_step_facts c V) as [_ [_ Hs]]. intros H Hl. inversion H as [E]. clear H.
+  unfold pi_online in E.
+  pose proof (online_loop_total (fun i => (i - 1)%Z) pi_fire (fun (_ : bool) (e : Z) => e) 0%Z
+                (map (pi_mask RN) (scaled_inputs RN (c_freq c) xs)) draws0 draws (Z.to_nat (c_steps c))) as Ht.
+  rewrite E in Ht. simpl in Ht. subst raised.
+  apply online_loop_shape in E; [|rewrite map_length, scaled_inputs_length; auto].
+  rewrite map_length, scaled_inputs_length in E. destruct E as [_ [E2 E3]]. auto.
+Qed.
+
+Theorem pie_online_zero_silent c xs draws0 draws outs raised j :
+  pie_online RN c xs draws0 draws = Ok (outs, raised) -> length draws0 = length xs ->
+  nth j xs 0 = 0 -> forall t, nth j (nth t outs []) false = false.
+Proof.
+  intros H Hl Hz t. destruct (pie_online_shape _ _ _ _ _ _ H Hl) as [_ [_ [_ Hrows]]].
+  destruct (Nat.lt_ge_cases j (length xs)) as [Hj|Hj]; [|eapply rows_out_of_range; eauto].
+  unfold pie_online in H. destruct (valid_step RN c); [|discriminate]. inversion H as [E]. clear H.
+  unfold pi_online in E. rewrite <- column_nth.
+  assert (Hok : Forall (Forall (fun _ : Z => True)) draws).
+  { clear. induction draws as [|r rs IH]; constructor; auto. clear. induction r; constructor; auto. }
+  apply (pi_online_never_when_masked (fun _ => True) (nth j draws0 0%Z)).
+  apply (online_loop_column (fun i => (i - 1)%Z) pi_fire (fun (_ : bool) (e : Z) => e) 0%Z (fun _ => True)
+           (fun _ => true) (map (pi_mask RN) (scaled_inputs RN (c_freq c) xs)) I
+           (Z.to_nat (c_steps c)) draws0 draws outs raised Hok).
+  - rewrite map_length, scaled_inputs_length; auto.
+  - exact E.
+  - rewrite nth_error_map, (nth_error_nth' _ 0) by (rewrite scaled_inputs_length; auto).
+    simpl. rewrite scaled_inputs_nth by auto. rewrite Hz. f_equal. apply pi_mask_zero.
+  - apply nth_error_nth'. lia.
+Qed.
+
+(* ------------------------------------------------------------------ Bernoulli approximations *)
+Lemma bern_prob_zero dt : bern_prob RN dt 0 = 0.
+Proof.
+  unfold bern_prob, tmin; rn_simpl. replace (0 / 1000 * dt) with 0 by (unfold Rdiv; ring).
+  destruct (Rltb'_spec 1 0); auto; lra.
+Qed.
+
+Lemma bern_prob_range dt inp : 0 < dt -> 0 <= inp -> 0 <= bern_prob RN dt inp <= 1.
+Proof.
+  intros Hdt Hi. unfold bern_prob, tmin; rn_simpl.
+  assert (0 <= inp / 1000 * dt) by (apply Rmult_le_pos; [unfold Rdiv; apply Rle_mult_inv_pos|]; lra).
+  destruct (Rltb'_spec 1 (inp / 1000 * dt)); lra.
+Qed.
+
+Lemma bern_prob_saturated dt inp : 1000 <= inp * dt -> bern_prob RN dt inp = 1.
+Proof.
+  intros H. unfold bern_prob, tmin; rn_simpl.
+  replace (inp / 1000 * dt) with (inp * dt / 1000) by (unfold Rdiv; ring).
+  destruct (Rltb'_spec 1 (inp * dt / 1000)); auto. lra.
+Qed.
+
+Lemma combine_nth_lt {A B} (l1 : list A) (l2 : list B) j d1 d2 :
+  (j < length l1)%nat -> (j < length l2)%nat -> nth j (combine l1 l2) (d1, d2) = (nth j l1 d1, nth j l2 d2).
+Proof.
+  revert l2 j; induction l1 as [|x t IH]; intros [|y t2] [|j] H1 H2; simpl in *; try lia; auto.
+  apply IH; lia.
+Qed.
+
+Lemma bern_row_nth dt inps us j : (j < length inps)%nat -> (j < length us)%nat ->
+  nth j (bern_row RN dt inps us) false = Rltb' (nth j us 0) (bern_prob RN dt (nth j inps 0)).
+Proof.
+  intros H1 H2. unfold bern_row. rewrite nth_map_lt with (d := (0, 0)) by (rewrite combine_length; lia).
+  rewrite combine_nth_lt; auto.
+Qed.
+
+Lemma bern_homogeneous_shape steps dt inps us :
+  length (bern_homogeneous RN steps dt inps us) = steps /\
+  ((forall t, (t < steps)%nat -> length (nth t us []) = length inps) ->
+   Forall (fun row => length row = length inps) (bern_homogeneous RN steps dt inps us)).
+Proof.
+  unfold bern_homogeneous. split; [rewrite map_length, seq_length; auto|].
+  intros Hu. apply Forall_forall. intros row Hr. apply in_map_iff in Hr as [t [<- Ht]].
+  apply in_seq in Ht. unfold bern_row. rewrite map_length, combine_length, Hu by lia. apply Nat.min_id.
+Qed.
+
+Lemma bern_homogeneous_nth steps dt inps us t j :
+  (t < steps)%nat -> (j < length inps)%nat -> (j < length (nth t us []))%nat ->
+  nth j (nth t (bern_homogeneous RN steps dt inps us) []) false =
+  Rltb' (nth j (nth t us []) 0) (bern_prob RN dt (nth j inps 0)).
+Proof.
+  intros Ht Hj Hu. unfold bern_homogeneous. rewrite nth_map_lt with (d := 0%nat) by (rewrite seq_length; auto).
+  rewrite seq_nth by auto. simpl. apply bern_row_nth; auto.
+Qed.
+
+(* HomogeneousPoissonApproxEncoder.forward (offline and online are the same function of the uniform draws) *)
+Theorem hpa_forward_shape c xs us out :
+  hpa_forward RN c xs us = Ok out ->
+  length out = Z.to_nat (c_steps c) /\ (0 < c_steps c)%Z /\
+  ((forall t, (t < Z.to_nat (c_steps c))%nat -> length (nth t us []) = length xs) ->
+   Forall (fun row => length row = length xs) out).
+Proof.
+  unfold hpa_forward. destruct (valid_step RN c) eqn:V; [|discriminate].
+  destruct (valid_step_facts c V) as [_ [_ Hs]]. intros H; inversion H; subst.
+  destruct (bern_homogeneous_shape (Z.to_nat (c_steps c)) (c_dt c) (scaled_inputs RN (c_freq c) xs) us) as [H1 H2].
+  rewrite scaled_inputs_length in H2. auto.
+Qed.
+
+Lemma hpa_forward_nth c xs us out t j :
+  hpa_forward RN c xs us = Ok out ->
+  (t < Z.to_nat (c_steps c))%nat -> (j < length xs)%nat -> (j < length (nth t us []))%nat ->
+  0 < c_dt c /\ 0 <= c_freq c /\
+  nth j (nth t out []) false = Rltb' (nth j (nth t us []) 0) (bern_prob RN (c_dt c) (c_freq c * nth j xs 0)).
+Proof.
+  unfold hpa_forward. destruct (valid_step RN c) eqn:V; [|discriminate].
+  destruct (valid_step_facts c V) as [Hdt [Hf Hs]]. intros H Ht Hj Hu; inversion H; subst.
+  split; auto. split; auto.
+  rewrite bern_homogeneous_nth by (rewrite ?scaled_inputs_length; auto).
+  rewrite scaled_inputs_nth by auto. reflexivity.
+Qed.
+
+(* --- C19: silence at zero intensity for every uniform draw u >= 0 *)
+Theorem hpa_zero_silent c xs us out t j :
+  hpa_forward RN c xs us = Ok out -> nth j xs 0 = 0 ->
+  Forall (Forall (fun u => 0 <= u)) us ->
+  nth j (nth t out []) false = false.
+Proof.
+  intros H Hz Hu.
+  destruct (Nat.lt_ge_cases t (Z.to_nat (c_steps c))) as [Ht|Ht].
+  2:{ destruct (hpa_forward_shape _ _ _ _ H) as [Hl _]. rewrite (nth_overflow out) by lia. destruct j; auto. }
+  assert (Hrow : nth t out [] = bern_row RN (c_dt c) (scaled_inputs RN (c_freq c) xs) (nth t us [])).
+  { unfold hpa_forward in H. destruct (valid_step RN c); [|discriminate]. inversion H; subst.
+    unfold bern_homogeneous. rewrite nth_map_lt with (d := 0%nat) by (rewrite seq_length; auto).
+    rewrite seq_nth by auto. reflexivity. }
+  destruct (Nat.lt_ge_cases j (length xs)) as [Hj|Hj];
+  [destruct (Nat.lt_ge_cases j (length (nth t us []))) as [Hju|Hju]|].
+  - destruct (hpa_forward_nth _ _ _ _ t j H Ht Hj Hju) as [_ [_ ->]].
+    rewrite Hz, Rmult_0_r, bern_prob_zero.
+    destruct (Rltb'_spec (nth j (nth t us []) 0) 0) as [Hlt|]; auto. exfalso.
+    assert (Hin : In (nth t us []) us \/ nth t us [] = []).
+    { destruct (Nat.lt_ge_cases t (length us)); [left; apply nth_In; auto|right; apply nth_overflow; auto]. }
+    destruct Hin as [Hin|Hin]; [|rewrite Hin in Hju; simpl in Hju; lia].
+    rewrite Forall_forall in Hu. specialize (Hu _ Hin). rewrite Forall_forall in Hu.
+    specialize (Hu (nth j (nth t us []) 0) (nth_In _ _ Hju)). lra.
+  - rewrite Hrow. apply nth_overflow. unfold bern_row. rewrite map_length, combine_length. lia.
+  - rewrite Hrow. apply nth_overflow. unfold bern_row. rewrite map_length, combine_length, scaled_inputs_length. lia.
+Qed.
+
+(* --- at the clamp (rate * dt >= 1000) the element fires at every step, for every uniform draw u < 1 *)
+Theorem hpa_saturated_fires c xs us out t j :
+  hpa_forward RN c xs us = Ok out ->
+  (t < Z.to_nat (c_steps c))%nat -> (j < length xs)%nat -> (j < length (nth t us []))%nat ->
+  1000 <= c_freq c * nth j xs 0 * c_dt c -> nth j (nth t us []) 0 < 1 ->
+  nth j (nth t out []) false = true.
+Proof.
+  intros H Ht Hj Hu Hsat Hlt. destruct (hpa_forward_nth _ _ _ _ t j H Ht Hj Hu) as [_ [_ ->]].
+  rewrite bern_prob_saturated by auto. destruct (Rltb'_spec (nth j (nth t us []) 0) 1); auto; lra.
+Qed.
+
+(* --- the sampler's parameter is a probability *)
+Theorem hpa_probs_range c xs ps :
+  hpa_probs RN c xs = Ok ps -> Forall (fun x => 0 <= x) xs ->
+  length ps = length xs /\ Forall (fun p => 0 <= p <= 1) ps.
+Proof.
+  unfold hpa_probs. destruct (valid_step RN c) eqn:V; [|discriminate].
+  destruct (valid_step_facts c V) as [Hdt [Hf Hs]]. intros H Hx; inversion H; subst.
+  split; [rewrite map_length, scaled_inputs_length; auto|].
+  apply Forall_forall. intros p Hp. apply in_map_iff in Hp as [y [<- Hy]].
+  unfold scaled_inputs in Hy. apply in_map_iff in Hy as [x [<- Hxin]].
+  rewrite Forall_forall in Hx. apply bern_prob_range; auto. apply Rmult_le_pos; auto.
+Qed.
+
+(* --- C19: reproducible - every encoder's result is a function of its configuration, inputs and draws
+       (true by construction of the model: the implementation-side counterpart, equal generator state =>
+       equal draws => equal result, is checked by the oracle on the real encoders) *)
+Theorem reproducible c xs shape coded draws draws' draws0 draws0' :
+  draws = draws' -> draws0 = draws0' ->
+  hpe_offline RN c xs draws = hpe_offline RN c xs draws' /\
+  hpe_online RN coded shape c xs draws0 draws = hpe_online RN coded shape c xs draws0' draws'.
+Proof. intros -> ->. auto. Qed.
+
+(* ------------------------------------------------------------------ non-vacuity: a concrete accepted call inside the
+   domain with two spikes of one element (so the gap / window / rate theorems are about real trains), a silent
+   zero-intensity element next to it *)
+Definition nv_cfg : config RN := mkConfig RN 8%Z 1 1000 (Some 2) false.
+Definition nv_xs : list R := [1; 0].
+Definition nv_draws : list (list R) := [[1; 1]; [1; 1]; [1; 1]; [1; 1]].
+
+Lemma nv_valid : valid_step RN nv_cfg && valid_refrac RN nv_cfg = true.
+Proof.
+  unfold valid_step, valid_refrac, nv_cfg; simpl.
+  destruct (Rleb'_spec 0 1000); [|lra]. destruct (Rltb'_spec 0 1); [|lra]. destruct (Rleb'_spec 0 2); [|lra]. auto.
+Qed.
+
+Lemma nv_domain : hpe_domain nv_cfg nv_xs.
+Proof. unfold hpe_domain, nv_cfg, nv_xs; simpl. split; [repeat constructor; lra|discriminate]. Qed.
+
+Lemma nv_draws_ok : Forall (Forall (fun e => 0 <= e)) nv_draws.
+Proof. unfold nv_draws. repeat constructor; lra. Qed.
+
+Theorem nonvacuous :
+  exists out, hpe_offline RN nv_cfg nv_xs nv_draws = Ok out /\ hpe_domain nv_cfg nv_xs /\
+    Forall (Forall (fun e => 0 <= e)) nv_draws /\ length out = 8%nat /\
+    nth 0 (nth 2 out []) false = true /\ nth 0 (nth 5 out []) false = true /\
+    enc_refrac RN nv_cfg = IZR 2 * c_dt nv_cfg /\
+    (forall t, nth 1 (nth t out []) false = false).
+Proof.
+  destruct (hpe_offline_defined nv_cfg nv_xs nv_draws nv_valid nv_domain nv_draws_ok) as [out Hout].
+  exists out. split; auto. split; [apply nv_domain|]. split; [apply nv_draws_ok|].
+  pose proof (hpe_offline_elems _ _ _ _ Hout) as [_ [Hlen [_ Hel]]].
+  split; [exact Hlen|].
+  destruct (Hel 0%nat ltac:(simpl; lia)) as [tr [Htr Hn]]. rewrite !Hn.
+  destruct (exp_offline_elem_spec _ _ _ _ _ _ _ Htr) as [_ [Hspec _]].
+  simpl in Hspec. unfold enc_refrac in Hspec. simpl in Hspec.
+  (* the element's parameters *)
+  assert (Er : refrac_steps RN (Some 2) 1 = 2) by (rewrite refrac_steps_eq; simpl; field).
+  assert (Es : scale_of RN (1000 * 1) 1 2 false = Some 1).
+  { unfold scale_of, period_steps; rn_simpl. destruct (Reqb'_spec (1000 * 1) 0); [lra|]. f_equal. field. }
+  assert (En : Z.to_nat (nbins RN 8 2) = 4%nat).
+  { unfold nbins; rn_simpl. rewrite tmax_Rmax, Rmax_left by lra.
+    replace (IZR (Z.of_nat 8) / 2) with (IZR 4) by (simpl; lra). rewrite Zfloor_IZR. reflexivity. }
+  rewrite Er, Es in Hspec. rewrite exp_indices_some in Hspec. unfold used in Hspec. rewrite En in Hspec.
+  simpl in Hspec.
+  assert (C3 : clamp_index RN 8 (Some (1 * 1 + 2)) = 3%Z).
+  { replace (1 * 1 + 2) with (IZR 3) by (simpl; lra).
+    destruct (clamp_index_lt 8 (IZR 3)) as [-> _]; [simpl; lra|simpl; lra|]. apply Zfloor_IZR. }
+  assert (C6 : clamp_index RN 8 (Some (1 * 1 + 2 + (1 * 1 + 2))) = 6%Z).
+  { replace (1 * 1 + 2 + (1 * 1 + 2)) with (IZR 6) by (simpl; lra).
+    destruct (clamp_index_lt 8 (IZR 6)) as [-> _]; [simpl; lra|simpl; lra|]. apply Zfloor_IZR. }
+  split; [|split; [|split]].
+  - apply Hspec. split; [lia|]. right. left. exact C6.
+  - apply Hspec. split; [lia|]. right. left. exact C6.
+  - simpl. lra.
+  - intros t. eapply hpe_offline_zero_silent; eauto.
 Qed.
